@@ -788,12 +788,12 @@ type iter struct {
 	// map iteration
 	entries []mapEntry
 	// string iteration
-	str    []rune
-	offs   []int
-	i      int
-	isStr  bool
-	keyT   types.Type
-	valT   types.Type
+	str   []rune
+	offs  []int
+	i     int
+	isStr bool
+	keyT  types.Type
+	valT  types.Type
 }
 
 func (in *Interp) rangeIter(fr *frame, x Value, instr *ssa.Range) Value {
